@@ -122,6 +122,9 @@ class ListProxy(list, ContainerValueMixin):
         )
 
     def _get_item_position(self, item: Any) -> str:
+        for index, value in enumerate(self):
+            if value is item:
+                return str(index)
         try:
             return str(self.index(item))
         except:  # noqa: E722
